@@ -150,8 +150,38 @@ IMM_RULE = ("generated programs of 1-5 entities with immediate handlers returnin
             "non-trivial = some timestamp carries deliveries of both a pre-run and a run-created event, or a cancel hits a "
             "pending event, or a daemon-only tail exists; distinct by canonical JSON of the case")
 
+def small_scope(tier):
+    """Exhaustive sub-space: 2 entities, 1..k initial events (k = 2 quick / 3 thorough) on timestamps {0, 1 tick}, every target /
+    kind / daemon-bit combination, the two event kinds bound to every pair of behaviours out of {no-op, emit one event at the same
+    instant to the other entity, emit one event one tick later, cancel the first initial event}, end_time in {none, 0, 1 tick},
+    alternating loop (control attached or not)."""
+    import itertools
+    behs = [
+        {"imm": [], "shape": "none", "resolve": [], "cancel": []},
+        {"imm": [{"dt": 0, "tgt": 1, "kind": 1, "daemon": False}], "shape": "list", "resolve": [], "cancel": []},
+        {"imm": [{"dt": 1, "tgt": 0, "kind": 0, "daemon": False}], "shape": "one", "resolve": [], "cancel": []},
+        {"imm": [{"dt": 0, "tgt": 0, "kind": 1, "daemon": True}], "shape": "list", "resolve": [], "cancel": [0]},
+    ]
+    kmax = 3 if tier == "thorough" else 2
+    ev_opts = list(itertools.product((0, 1), (0, 1), (0, 1), (False, True)))      # t, tgt, kind, daemon
+    i = 0
+    for k in range(1, kmax + 1):
+        for evs in itertools.product(ev_opts, repeat=k):
+            for a, b in itertools.product(range(4), repeat=2):
+                for end in (None, 0, 1):
+                    i += 1
+                    initial = [{"t": t, "j": 0, "tgt": tgt, "kind": kind, "daemon": dm, "cancel": False, "c": 0,
+                                "h": 0 if n == 0 else None, "hooks": []} for n, (t, tgt, kind, dm) in enumerate(evs)]
+                    yield {"prog": {"n": 2, "nfut": 0, "fuel": 2, "handlers": [[a, b, a], [b, a, b]], "behs": behs,
+                                    "initial": initial, "batch": bool(i & 1)},
+                           "end": end, "endj": 0, "control": bool(i & 2)}
+
+
 OBLIGATIONS = [
     Obligation("imm", case_strategy(False), execute_factory("imm"), {"quick": 3000, "thorough": 150000}, IMM_RULE),
+    Obligation("small-scope", case_strategy(False), execute_factory("small-scope"), {"quick": 0, "thorough": 0},
+               "EXHAUSTIVE sub-space (no sampling): " + " ".join((small_scope.__doc__ or "").split()) + " Same oracle and non-triviality rule.",
+               enumerate=small_scope),
     Obligation("proc", case_strategy(True), execute_factory("proc"), {"quick": 3000, "thorough": 150000},
                "same, with generator handlers (delays, side-effect events, futures, any_of/all_of, yield from) mixed in; "
                "same non-triviality rule"),
